@@ -124,6 +124,16 @@ impl CgrComputer {
         Ok(())
     }
 
+    #[cfg(kmertools_verif)]
+    pub fn verif_set_max_memory(&mut self, memory: usize) {
+        self.memory = memory;
+    }
+
+    #[cfg(kmertools_verif)]
+    pub fn verif_vectorise_one(&self, seq: &[u8]) -> Result<Vec<Point>, String> {
+        self.vectorise_one(seq)
+    }
+
     fn vectorise_one(&self, seq: &[u8]) -> Result<Vec<Point>, String> {
         let mut cgr = Vec::with_capacity(seq.len());
         let mut cgr_marker = self.cgr_center;
